@@ -75,6 +75,7 @@ class HangError(BaseException):
 class Run(object):
     def __init__(self, prog, schedule=None, tiebreak_seed=None, options=None):
         self.prog = prog
+        self.options = options
         self.schedule = schedule      # list of kinds, one per scheduler flush round (steering) or None
         self.tb_seed = tiebreak_seed  # int: pseudo-random tie-break order per round, or None
         self.events = []
@@ -460,14 +461,31 @@ class Run(object):
 
     # -- driver ----------------------------------------------------------------------------------
     def run(self):
-        from asynq import _debug
+        from asynq import _debug, profiler
+        import asynq.scheduler as schedmod
         old_max = _debug.options.MAX_TASK_STACK_SIZE
+        saved = {}
         if "maxstack" in self.prog:
             _debug.options.MAX_TASK_STACK_SIZE = self.prog["maxstack"]
+        opts = self.options or {}
+        clock = opts.get("_clock")
+        old_utime, old_time = schedmod.utime, schedmod.time
         try:
+            for k, v in opts.items():
+                if not k.startswith("_"):
+                    saved[k] = getattr(_debug.options, k)
+                    setattr(_debug.options, k, v)
+            if clock:
+                fake = _FakeClock(clock)
+                schedmod.utime = fake.utime
+                schedmod.time = fake
             return self._run()
         finally:
             _debug.options.MAX_TASK_STACK_SIZE = old_max
+            for k, v in saved.items():
+                setattr(_debug.options, k, v)
+            schedmod.utime, schedmod.time = old_utime, old_time
+            profiler.reset()
 
     def _run(self):
         _sched.reset()
@@ -504,6 +522,22 @@ class Run(object):
         if self.in_sched_flush and self.in_sched_flush[-1] == bid:
             self.in_sched_flush.pop()
         self.emit("After", b=bid)
+
+
+class _FakeClock(object):
+    """scripted clock for the profiling code: every reading advances by `step` microseconds"""
+
+    def __init__(self, step):
+        self.step = step
+        self.now = 1700000000 * 1000000
+
+    def utime(self):
+        self.now += self.step
+        return self.now
+
+    def time(self):
+        self.now += self.step
+        return self.now / 1000000.0
 
 
 class _AttrObj(object):
@@ -699,9 +733,9 @@ def _alarm(signum, frame):
     raise HangError()
 
 
-def run_program(prog, schedule=None, tb_seed=None, timeout=10):
+def run_program(prog, schedule=None, tb_seed=None, timeout=10, options=None):
     """Run one program; returns {"events": [...], "hang": bool, "crash": str|None}"""
-    run = Run(prog, schedule=schedule, tiebreak_seed=tb_seed)
+    run = Run(prog, schedule=schedule, tiebreak_seed=tb_seed, options=options)
     old = signal.signal(signal.SIGALRM, _alarm)
     signal.setitimer(signal.ITIMER_REAL, timeout)
     hang = False
@@ -726,12 +760,13 @@ def main():
     devnull = open(os.devnull, "w")
     real_out = os.fdopen(os.dup(1), "w")
     os.dup2(devnull.fileno(), 1)      # asynq diagnostics write to the captured sys.stdout / fd 1
+    os.dup2(devnull.fileno(), 2)
     sys.stdout = devnull
     req = json.load(sys.stdin)
     out = []
     gc.disable()
     for n, job in enumerate(req["jobs"]):
-        r = run_program(job["prog"], job.get("schedule"), job.get("tb"), timeout=req.get("timeout", 10))
+        r = run_program(job["prog"], job.get("schedule"), job.get("tb"), timeout=req.get("timeout", 10), options=job.get("options"))
         r["id"] = job.get("id")
         out.append(r)
         if n % 200 == 199:
